@@ -1,1 +1,98 @@
-/- C19 — property theorems (stub: not built yet) -/
+import Rivaas.Model.Accept
+import Rivaas.Model.Render
+import Rivaas.Model.Headers
+import Rivaas.Spec.Accept
+import Rivaas.Spec.Render
+/-
+C19 — Context helpers compute what they document, for every input and call history.
+Property theorems (helper lemmas are named `lemma_*`). Models: Model/Accept, Model/Render,
+Model/Headers (the code after the C19 `fix:` commits; `…AsIs` = as shipped, for the witnesses).
+-/
+namespace Rivaas.C19
+open Rivaas
+
+/-! ## 1. Negotiation is a pure function of (header, offers), over every call history -/
+
+/-- the cache, when filled, holds the parse of the header it is keyed on -/
+def CacheOK (pf : Accept.PF) (ctx : Accept.Ctx) : Prop :=
+  ∀ specs, ctx.cachedSpecs = some specs → specs = Accept.parseAccept pf ctx.cachedHeader
+
+theorem lemma_step_pure (pf : Accept.PF) (ctx : Accept.Ctx) (c : Accept.Call) (h : CacheOK pf ctx) :
+    (Accept.step pf ctx c).2 = Accept.answer pf c ∧ CacheOK pf (Accept.step pf ctx c).1 := by
+  unfold Accept.step Accept.answer
+  cases hk : c.kind <;> simp only []
+  · -- Accepts
+    by_cases ho : c.offers.isEmpty = true
+    · simp [ho, h]
+    · by_cases hh : c.header.isEmpty = true
+      · simp [ho, hh, h]
+      · simp only [ho, hh, if_false, Bool.false_eq_true]
+        by_cases heq : ctx.cachedHeader = c.header
+        · simp only [heq, beq_self_eq_true, if_true]
+          cases hs : ctx.cachedSpecs with
+          | none =>
+            refine ⟨by first | rfl | trivial, ?_⟩
+            intro specs hsp
+            simp at hsp
+            exact hsp.symm
+          | some specs =>
+            have := h specs hs
+            simp only []
+            refine ⟨?_, h⟩
+            rw [this, heq]
+        · have hne : (ctx.cachedHeader == c.header) = false := by simpa using heq
+          simp only [hne, Bool.false_eq_true, if_false]
+          refine ⟨by first | rfl | trivial, ?_⟩
+          intro specs hsp
+          simp at hsp
+          exact hsp.symm
+  all_goals
+    by_cases hh : c.header.isEmpty = true
+    · simp [hh, h]
+    · simp only [hh, if_false, Bool.false_eq_true]
+      refine ⟨by first | rfl | trivial, ?_⟩
+      intro specs hsp
+      exact h specs hsp
+
+/-- **negotiation_pure.** Whatever calls were made before on the same context — any mix of the four
+    helpers, any header values, any arena contents — every answer is `answer (header, offers)`. -/
+theorem negotiation_pure (pf : Accept.PF) (ctx : Accept.Ctx) (h : CacheOK pf ctx) (calls : List Accept.Call) :
+    Accept.run pf ctx calls = calls.map (Accept.answer pf) := by
+  induction calls generalizing ctx with
+  | nil => rfl
+  | cons c cs ih =>
+    have hs := lemma_step_pure pf ctx c h
+    simp only [Accept.run, List.map_cons]
+    rw [hs.1, ih _ hs.2]
+
+/-- a fresh request context satisfies the cache invariant, whatever the pooled arena holds -/
+theorem fresh_cacheOK (pf : Accept.PF) (arena : List Accept.ASpec) :
+    CacheOK pf { cachedHeader := [], cachedSpecs := none, arena := arena } := by
+  intro specs h; simp at h
+
+/-- repeated or interleaved calls give the same answers: a call's answer does not depend on where in
+    the history it stands -/
+theorem negotiation_history_independent (pf : Accept.PF) (arena : List Accept.ASpec)
+    (before : List Accept.Call) (c : Accept.Call) (after : List Accept.Call) :
+    (Accept.run pf { cachedHeader := [], cachedSpecs := none, arena := arena } (before ++ c :: after))[before.length]? =
+      some (Accept.answer pf c) := by
+  rw [negotiation_pure pf _ (fresh_cacheOK pf arena)]
+  simp
+
+-- non-vacuity: the invariant holds on a context whose cache is filled, and the history matters as shipped
+example : CacheOK (fun _ => none) (Accept.step (fun _ => none) Accept.Ctx.fresh
+    { kind := .accept, header := Accept.bs "text/html", offers := [Accept.bs "html"] }).1 :=
+  (lemma_step_pure _ _ _ (fresh_cacheOK _ _)).2
+
+def k19aCalls : List Accept.Call :=
+  [ { kind := .accept, header := Accept.bs "text/html, application/json;q=0.9", offers := [Accept.bs "html"] },
+    { kind := .encoding, header := Accept.bs "gzip", offers := [Accept.bs "gzip"] },
+    { kind := .accept, header := Accept.bs "text/html, application/json;q=0.9", offers := [Accept.bs "html"] } ]
+
+/-- K19a as shipped: Accepts ; AcceptsEncodings ; Accepts answers "html" then "" -/
+theorem negotiation_asis_witness :
+    Accept.runAsIs (fun _ => none) Accept.CtxAsIs.fresh k19aCalls = [Accept.bs "html", Accept.bs "gzip", []] ∧
+    Accept.run (fun _ => none) Accept.Ctx.fresh k19aCalls = [Accept.bs "html", Accept.bs "gzip", Accept.bs "html"] := by
+  decide
+
+end Rivaas.C19
